@@ -22,16 +22,17 @@ import (
 func TestMain(m *testing.M) { ev.MainExit(m, "C19") }
 
 type member struct {
-	id      transport.TransportID
-	n, idx  int
-	mu      sync.Mutex
-	cond    *sync.Cond
-	inbound [][]byte
-	writes  []string
-	closed  int
-	tx, rx  uint64
-	unrel   bool
-	uw      []string
+	id       transport.TransportID
+	n, idx   int
+	mu       sync.Mutex
+	cond     *sync.Cond
+	inbound  [][]byte
+	writes   []string
+	closed   int
+	tx, rx   uint64
+	unrel    bool
+	uw       []string
+	closeErr bool
 }
 
 func newMember(id string, n, idx int, unrel bool) *member {
@@ -71,7 +72,11 @@ func (m *member) CloseWithStatus(transport.CloseStatus) error {
 	m.mu.Lock()
 	m.closed++
 	m.cond.Broadcast()
+	ce := m.closeErr
 	m.mu.Unlock()
+	if ce {
+		return fmt.Errorf("fake member %s: close reports an error", m.id)
+	}
 	return nil
 }
 func (m *member) RxBytesCounterValue() uint64 { m.mu.Lock(); defer m.mu.Unlock(); return m.rx }
@@ -119,6 +124,8 @@ type Case struct {
 	Scheduler string `json:"scheduler"` // event | scripted-poller | round-robin | last-used | nic
 	Initial   string `json:"initial"`   // member id, "foreign" or ""
 	Ops       []Op   `json:"ops"`
+	// CloseErrors: bit i set = closing member i tears it down but reports an error; Close must still reach every member
+	CloseErrors int `json:"close_errors,omitempty"`
 }
 
 type scripted struct{ cur atomic.Value }
@@ -163,6 +170,7 @@ func run(c Case, k *ev.Case) *ev.Failure {
 	tm := multi.TransportMap{}
 	for i := range members {
 		members[i] = newMember(fmt.Sprintf("m%d", i), c.Members, i, i%2 == 0)
+		members[i].closeErr = c.CloseErrors&(1<<i) != 0
 		tm[members[i].id] = members[i]
 	}
 	conf := multi.TransportConfig{TransportMap: tm, InitialTransportID: transport.TransportID(c.Initial)}
@@ -475,6 +483,9 @@ func gen(t *rapid.T) Case {
 		}
 	}
 	c.Initial = genID("initial")
+	if rapid.IntRange(0, 2).Draw(t, "closeerrs") == 0 {
+		c.CloseErrors = rapid.IntRange(1, 1<<c.Members-1).Draw(t, "closeerrmask")
+	}
 	n := rapid.IntRange(1, 25).Draw(t, "nops")
 	for i := 0; i < n; i++ {
 		switch rapid.IntRange(0, 9).Draw(t, "opkind") {
